@@ -26,19 +26,20 @@ def environment():
     """the callables every model declares, so that invocations in the corpus resolve"""
     F = lambda params, ptypes, ret='integer': {'params': params, 'ptypes': ptypes, 'ret': ret, 'body': []}
     env = {
-        'funcs': {'fact': F(['n'], {'n': 'integer'}), 'mix': F(['a', 'b', 's', 'f'], {'a': 'integer', 'b': 'integer', 's': 'string', 'f': 'boolean'})},
+        'funcs': {'fact': F(['n'], {'n': 'integer'}), 'tally': F(['n'], {'n': 'integer'}, 'Count'), 'mix': F(['a', 'b', 's', 'f'], {'a': 'integer', 'b': 'integer', 's': 'string', 'f': 'boolean'})},
         'ops': {'A': {'cop': dict(F(['x'], {'x': 'integer'}), inst=False), 'iop': dict(F(['k'], {'k': 'integer'}), inst=True)}},
         'bridges': {'EE1': {'br': F(['s', 'n'], {'s': 'string', 'n': 'integer'})}},
         'derived': {'A': {'Calc': {'ty': 'integer', 'body': []}}},
         'enums': {'Color': ['RED', 'GREEN', 'BLUE']},
         'consts': {'LIMIT': ('integer', '7'), 'GREETING': ('string', 'go'), 'ENABLED': ('boolean', 'true')},
     }
-    texts = {'func:fact': STUB, 'func:mix': STUB, 'op:A:cop': STUB, 'op:A:iop': STUB, 'bridge:EE1:br': STUB,
+    texts = {'func:fact': STUB, 'func:tally': STUB, 'func:mix': STUB, 'op:A:cop': STUB, 'op:A:iop': STUB, 'bridge:EE1:br': STUB,
              'derived:A:Calc': 'self.Calc = 1;'}
     return env, texts
 
 
-PARAMS = [{'n': 'x', 'ty': 'integer'}, {'n': 'flag', 'ty': 'boolean'}, {'n': 's', 'ty': 'string'}]
+# (Count is a user-defined data type over integer: a value keeps the declared type, not its base type)
+PARAMS = [{'n': 'x', 'ty': 'integer'}, {'n': 'flag', 'ty': 'boolean'}, {'n': 's', 'ty': 'string'}, {'n': 'cnt', 'ty': 'Count'}]
 
 
 def model_with(schema, home, text, seed):
@@ -46,6 +47,7 @@ def model_with(schema, home, text, seed):
     item = {'env': env, 'texts': dict(texts), 'script_texts': []}
     d = calls.diagram(schema, item)
     d['irdt'] = True
+    d['udts'].append({'n': 'Count', 'base': 'integer', 'comp': ''})
     if home == 'func':
         d['funcs'].append({'n': 'target', 'ret': 'integer', 'body': text, 'params': PARAMS})
     elif home == 'bridge':
